@@ -22,6 +22,7 @@ KF_KINDS = {
     "union-pack": "union-speculative-packer",
     "nt-ovc": "schema-nt-override-in-containers",
     "strategy-origin": "schema-strategy-origin-key",
+    "ovr-nullable": "schema-overridden-nullable",
 }
 
 _modn = [0]
@@ -275,6 +276,8 @@ class Sites:
                 key = f["alias"] if f["alias"] is not None else f["name"]
                 if not f["init"]:
                     self.out.append((path, "init-false"))
+                if (f.get("ser") or ("",))[0] == "fn":
+                    continue        # the member is the (constant, finding-free) output of the user's function
                 fv = getattr(v, f["name"])
                 if cfg.get("omit_none") and fv is None and field_nullable(f, e2):
                     continue        # the key is dropped (and, since /repo a5aab21, not required)
@@ -570,6 +573,10 @@ FIXED_CASES = [
      "def _ser(v) -> str:\n    return ','.join(map(str, v))\n@dataclass\nclass St(DataClassDictMixin):\n    x: List[int]\n"
      "    y: List[int] = field(default_factory=list, metadata={'serialize': _ser})\n"
      "    class Config(BaseConfig):\n        serialization_strategy = {list: {'serialize': _ser}}\n", "St", ["St([1, 2])"]),
+    ("overridden serialization of a nullable field",
+     "def _sr(v) -> str:\n    return 's'\n@dataclass\nclass Ov(DataClassDictMixin):\n"
+     "    x: Optional[int] = field(metadata=field_options(serialize=_sr))\n    y: int = field(default=1, metadata=field_options(serialize=_sr))\n",
+     "Ov", ["Ov(1)", "Ov(None)"]),
     ("same name", "def mk(t):\n    @dataclass\n    class P(DataClassDictMixin):\n        v: t\n    return P\nP1 = mk(int)\nP2 = mk(str)\n"
                   "@dataclass\nclass HP(DataClassDictMixin):\n    a: P1\n    b: P2\n", "HP", ["HP(P1(1), P2('s'))"]),
 ]
@@ -1060,11 +1067,13 @@ def run_fixed(ctx, descr, src, vals):
                 ctx.count(("fixed", descr, vsrc, dl, ar))
                 if errs:
                     e = errs[0]
-                    kind = {"flag": "flag", "int keys": "nonstr-key", "same name": "bare-name", "strategy by origin key": "strategy-origin"}.get(descr)
+                    kind = {"flag": "flag", "int keys": "nonstr-key", "same name": "bare-name", "strategy by origin key": "strategy-origin",
+                            "overridden serialization of a nullable field": "ovr-nullable"}.get(descr)
                     ok_kf = (kind == "flag" and e.validator == "enum" and vsrc == "F.A | F.B") or \
                             (kind == "nonstr-key" and "propertyNames" in list(e.absolute_schema_path) and vsrc == "{1: 'a'}") or \
                             (kind == "bare-name" and ar) or \
-                            (kind == "strategy-origin" and e.validator == "type" and list(e.absolute_path) == ["x"])
+                            (kind == "strategy-origin" and e.validator == "type" and list(e.absolute_path) == ["x"]) or \
+                            (kind == "ovr-nullable" and e.validator == "type" and list(e.absolute_path) == ["x"] and vsrc == "Ov(None)")
                     ctx.fail(f"{descr}: {vsrc} rejected: {e.message[:100]}",
                              {"entry": "fixed", "source": src, "dialect": dl, "all_refs": ar, "check": "validate", "value": vsrc,
                               "document": doc, "schema": s, "observed": e.message[:200], "expected": "no validation error"},
